@@ -524,6 +524,161 @@ def quantifiers_as_loops(fn):
     return g
 
 
+# ---- procedure-style helpers of _write_share_data, followed (same technique as C38.14) ------------------------
+import copy as _copy
+
+_WSD_PROTOCOL = {"_write_share_data", "_change_container_size", "_read_data_length", "_write_data_length",
+                 "_read_extra_lease_offset", "_write_extra_lease_offset", "_read_num_extra_leases", "_read_share_data"}
+
+
+class _Rebind(ast.NodeTransformer):
+    def __init__(self, names, exprs):
+        self.names, self.exprs = names, exprs
+
+    def visit_Name(self, n):
+        if n.id in self.exprs and isinstance(n.ctx, ast.Load):
+            return ast.copy_location(_copy.deepcopy(self.exprs[n.id]), n)
+        if n.id in self.names:
+            return ast.copy_location(ast.Name(id=self.names[n.id], ctx=n.ctx), n)
+        return n
+
+
+def _self_helper(fn, st):
+    """(call, callee) when the statement is nothing but ``self.h(..)`` of a method of fn's class, else None"""
+    if not (isinstance(st, ast.Expr) and isinstance(st.value, ast.Call) and fn.cls is not None):
+        return None
+    c = st.value
+    if not (isinstance(c.func, ast.Attribute) and isinstance(c.func.value, ast.Name) and c.func.value.id == "self"):
+        return None
+    h = fn.cls.lookup(c.func.attr)
+    return (c, h) if h is not None and isinstance(h.node, ast.FunctionDef) else None
+
+
+def _helper_body(c, h, counter):
+    """Statements of the straight procedure h with its parameters bound to the arguments of the call c (positional or
+    keyword, no defaults) and its locals renamed apart; None when h is not such a procedure."""
+    hn = h.node
+    a = hn.args
+    if a.vararg or a.kwarg or a.kwonlyargs or getattr(a, "posonlyargs", None) or hn.decorator_list:
+        return None
+    ps = [x.arg for x in a.args]
+    if not ps or ps[0] != "self" or any(isinstance(x, ast.Starred) for x in c.args) or any(k.arg is None for k in c.keywords):
+        return None
+    ps = ps[1:]
+    if len(c.args) > len(ps):
+        return None
+    bound = dict(zip(ps, c.args))
+    for k in c.keywords:
+        if k.arg not in ps or k.arg in bound:
+            return None
+        bound[k.arg] = k.value
+    if set(bound) != set(ps):
+        return None                      # defaults: not followed
+    body = list(hn.body)
+    if body and isinstance(body[0], ast.Expr) and isinstance(body[0].value, ast.Constant) and isinstance(body[0].value.value, str):
+        body = body[1:]
+    if body and isinstance(body[-1], ast.Return) and body[-1].value is None:
+        body = body[:-1]
+    inner = [x for s in body for x in ast.walk(s)]
+    if not body or any(isinstance(x, (ast.Return, ast.Yield, ast.YieldFrom, ast.FunctionDef, ast.AsyncFunctionDef, ast.Lambda,
+                                      ast.ClassDef, ast.Global, ast.Nonlocal, ast.Await)) for x in inner):
+        return None
+    stored = {x.id for x in inner if isinstance(x, ast.Name) and isinstance(x.ctx, (ast.Store, ast.Del))}
+    counter[0] += 1
+    pre = "_h%d_" % counter[0]
+    names = {x: pre + x for x in stored | set(ps)}
+    exprs, head = {}, []
+    for p_ in ps:
+        v = bound[p_]
+        if isinstance(v, ast.Name) and p_ not in stored:
+            exprs[p_] = v                  # the same variable under another name
+        else:
+            t = ast.Assign(targets=[ast.Name(id=names[p_], ctx=ast.Store())], value=_copy.deepcopy(v), type_comment=None)
+            head.append(ast.copy_location(t, c))
+    rn = _Rebind(names, exprs)
+    out = head + [rn.visit(_copy.deepcopy(s)) for s in body]
+    for s in out:
+        ast.fix_missing_locations(s)
+    return out
+
+
+def _touches_file(h, depth=4, seen=None):
+    """does h (or a self.method it calls, transitively) seek / write / truncate some file or resize the container"""
+    seen = set() if seen is None else seen
+    if h.qual in seen or depth < 0:
+        return False
+    seen.add(h.qual)
+    for c in [x for x in func_own_nodes(h) if isinstance(x, ast.Call)]:
+        if call_tail(c) in ("seek", "write", "truncate", "writelines", "_change_container_size", "_write_data_length",
+                            "_write_extra_lease_offset"):
+            return True
+        if h.cls is not None and isinstance(c.func, ast.Attribute) and attr_path(c.func.value) == "self":
+            g = h.cls.lookup(c.func.attr)
+            if g is not None and _touches_file(g, depth - 1, seen):
+                return True
+    return False
+
+
+def wsd_with_helpers(idx, rounds=4):
+    """_write_share_data with the procedure-style helpers it hands the file to (``self.h(f, ..)`` as a statement) replaced
+    by their bodies, repeatedly: (FuncInfo - the function itself when nothing was followed, {qual of every helper all of
+    whose uses were followed}).  A helper that is handed the file, touches it and cannot be followed (returns a value, is
+    used inside an expression, has defaults ..) is an ANALYSIS-ERROR: its part of the write protocol is not seen."""
+    fn = idx.func(MSF + "._write_share_data")
+    ps = first_positional_params(fn)
+    if len(ps) < 3:
+        raise AnchorVanished("%s(f, offset, data)" % fn.qual)
+    fp = ps[0]
+
+    def passes_file(c):
+        return any(attr_path(a) == fp for a in c.args) or any(attr_path(k.value) == fp for k in c.keywords)
+
+    def want(c, h):
+        return h.name not in _WSD_PROTOCOL and passes_file(c)
+    node = _copy.deepcopy(fn.node)
+    counter, changed, followed = [0], [False], {}
+
+    class T(ast.NodeTransformer):
+        def visit_FunctionDef(self, n):
+            return n if n is not node else self.generic_visit(n)
+        visit_AsyncFunctionDef = visit_Lambda = visit_ClassDef = lambda self, n: n
+
+        def visit_Expr(self, st):
+            hit = _self_helper(fn, st)
+            if hit is None or not want(*hit):
+                return st
+            b = _helper_body(hit[0], hit[1], counter)
+            if b is None:
+                return st
+            changed[0] = True
+            followed[hit[1].qual] = hit[1]
+            return b
+    did = False
+    for _i in range(rounds):
+        changed[0] = False
+        T().visit(node)
+        if not changed[0]:
+            break
+        did = True
+    if not did:
+        g = fn
+    else:
+        ast.fix_missing_locations(node)
+        g = FuncInfo(fn.module, node, fn.qual, fn.cls, fn.parent)
+        g.nested = dict(fn.nested)
+    left = set()
+    for c in [x for x in func_own_nodes(g) if isinstance(x, ast.Call)]:
+        if isinstance(c.func, ast.Attribute) and attr_path(c.func.value) == "self" and fn.cls is not None:
+            h = fn.cls.lookup(c.func.attr)
+            if h is None:
+                continue
+            left.add(h.qual)
+            if want(c, h) and _touches_file(h):
+                raise AnalysisError("%s: the helper %s is handed the share file, touches it and cannot be followed (it returns a "
+                                    "value / is not a plain procedure)" % (fn.qual, src(g, c)))
+    return g, {q for q in followed if q not in left}
+
+
 # -------------------------------------------------------------------- rules
 def run(ctx: Context):
     idx = ctx.idx
@@ -533,7 +688,7 @@ def run(ctx: Context):
     with ctx.rule("C23.1", "R1/R2", "_write_share_data: a gap is zero-filled at DATA_OFFSET+data_length, the data length "
                   "becomes offset+len(data) exactly when the write reaches the old end, the bytes go to "
                   "DATA_OFFSET+offset", expected=3) as r:
-        fn = idx.func(MSF + "._write_share_data")
+        fn, _followed = wsd_with_helpers(idx)
         f, off, data = first_positional_params(fn)[:3]
         cfg = fn.cfg()
         fnm = FlowNorm(fn)
@@ -605,7 +760,7 @@ def run(ctx: Context):
     # -- 2. container growth, lease relocation --------------------------------
     with ctx.rule("C23.2", "R1/R2", "container growth precedes every data-region write; _change_container_size moves "
                   "the extra-lease block intact", expected=4) as r:
-        fn = idx.func(MSF + "._write_share_data")
+        fn, _followed = wsd_with_helpers(idx)
         f, off, data = first_positional_params(fn)[:3]
         cfg = fn.cfg()
         fnm = FlowNorm(fn)
@@ -864,9 +1019,13 @@ def run(ctx: Context):
         within = le_facts("%s - %s - %s" % (DL, off, ln))
         clipv = norm_src("max(0, %s - %s)" % (DL, off))
 
+        # the clip applied unconditionally: min(length, ..) leaves a length that fits as it is, so
+        # length = max(0, min(length, data_length - offset)) is the guarded assignment in one expression
+        clipvs = {clipv, norm_src("max(0, min(%s, %s - %s))" % (ln, DL, off)), norm_src("min(%s, max(0, %s - %s))" % (ln, DL, off))}
+
         def clip(n):
             v = assign_value(n, ln)
-            return v is not None and fnm.norm(n, v) == clipv
+            return v is not None and fnm.norm(n, v) in clipvs
         for n in rd:
             r.site(fn, n.ast, "read")
             c = fcalls(n, f, "read")[0]
@@ -928,7 +1087,14 @@ def run(ctx: Context):
             for (t, w) in find_path_avoiding(cfg, lambda x: x is n, gate_edge=lambda m, lab: fnm.edge_fact(m, lab) in shorter):
                 r.violation(fn, fn.loc(c), "length field is written without new_length < current length: a larger "
                             "new_length would extend the share with stale bytes (path: %s)" % w.brief(), w)
-            fresh = lambda m: any(isinstance(m.ast, ast.Assign) for _c in self_call(m, "_read_data_length", fv))
+            def fresh(m):
+                """the current length is read here: into a local, or inside the comparison new_length < <read> itself"""
+                if not self_call(m, "_read_data_length", fv):
+                    return False
+                if isinstance(m.ast, ast.Assign):
+                    return True
+                return m.kind == "test" and not m.assume and any(
+                    isinstance(lab, tuple) and fnm.edge_fact(m, lab) in shorter for (_d, lab) in cfg.succ[m.id])
             for (t, w) in find_path_avoiding(cfg, lambda x: x is n, gate_node=fresh, kill=has_call("_write_share_data")):
                 r.violation(fn, fn.loc(c), "truncation compares against a data length read before the data writes "
                             "(path: %s)" % w.brief(), w)
@@ -1098,8 +1264,24 @@ def run(ctx: Context):
         table = {"_write_share_data": 2, "_change_container_size": 2, "_write_data_length": 1, "_write_extra_lease_offset": 1}
         lease_writers = {"_write_lease_record", "_write_num_extra_leases", "add_lease", "renew_lease", "cancel_lease",
                          "add_or_renew_lease", "_pack_leases", "create", "unlink"}
+        # helpers of _write_share_data that C23.1 / C23.2 read as part of it: their writes are classified there, as long as
+        # nothing else reachable from writev calls (or mentions) them
+        wsd, followed = wsd_with_helpers(idx)
+        wsd_q = wsd.qual
+        for hq in sorted(followed):
+            hname = idx.funcs[hq].name
+            for q in sorted(reach):
+                if q == wsd_q or q in followed:
+                    continue
+                g = idx.funcs[q]
+                if any(isinstance(x, ast.Attribute) and x.attr == hname for x in func_own_nodes(g)):
+                    followed = followed - {hq}
         for q in sorted(reach):
             g = idx.funcs[q]
+            if q in followed:
+                continue                     # counted with _write_share_data below
+            if q == wsd_q:
+                g = wsd
             if g.name in lease_writers:
                 r.violation(root, root.loc(), "%s is reachable from writev: a data write can alter lease records" % short(g))
             sites = [c for c in calls_in_func(g) if call_tail(c) in ("write", "truncate", "writelines")
@@ -1299,7 +1481,7 @@ def run(ctx: Context):
                   "quantities exceeds (or reaches) MAX_SIZE", expected=1) as r:
         for qual in (MSF + "._write_share_data", MSF + "._change_container_size", MSF + ".writev",
                      SRV + "._evaluate_write_vectors"):
-            fn = quantifiers_as_loops(idx.func(qual))     # `if any(end > MAX_SIZE for ..): raise` read as the loops it abbreviates
+            fn = quantifiers_as_loops(wsd_with_helpers(idx)[0] if qual == MSF + "._write_share_data" else idx.func(qual))     # `if any(end > MAX_SIZE for ..): raise` read as the loops it abbreviates
             cfg = fn.cfg()
             fnm = FlowNorm(fn)
 
